@@ -24,6 +24,12 @@ pub fn worker_id() -> usize {
     crate::scheduler::WORKER_ID.get()
 }
 
+/// a number identifying an OS thread (for `std::thread::park` notes)
+#[inline]
+pub fn thread_num(t: &std::thread::Thread) -> usize {
+    unsafe { std::mem::transmute::<std::thread::ThreadId, u64>(t.id()) as usize }
+}
+
 /// result of a park as a small integer: 0 Ok, 1 Timeout, 2 Canceled
 #[inline]
 pub fn park_code(r: &Result<(), crate::park::ParkError>) -> usize {
